@@ -95,6 +95,50 @@ def sis_case(draw):
     return case
 
 
+@st.composite
+def sis_decimal_case(draw):
+    """durations and delays in tenths (0.1 is not a binary fraction): event times are float sums such as 0.2+0.7 = 0.8999999999999999,
+    and the horizon is the round number next to one of them - an event just below tmax must still be reported, one at tmax not"""
+    gc = draw(gen.graph_case(2, 5, labels=('int', 'str'), weighted=False, directed=draw(st.integers(0, 3)) == 0,
+                             family=draw(st.sampled_from(['random', 'complete', 'cycle', 'star', 'path']))))
+    nodes, adj = oracles.adjacency(gc)
+    pairs = [(u, v) for u in nodes for v in adj[u]]
+    dur = [[draw(st.integers(5, 23)) / 10.0 for _ in range(draw(st.integers(1, 2)))] for _ in nodes]
+    delays = []
+    for (u, v) in pairs:
+        du = dur[nodes.index(u)]
+        lists = []
+        for k in range(draw(st.integers(1, 2))):
+            hi = int(round(min(du) * 10)) - 1
+            xs = sorted(set(draw(st.integers(1, max(1, hi))) / 10.0 for _ in range(draw(st.integers(0, 3)))))
+            lists.append(xs)
+        delays.append(lists)
+    I0, _ = draw(gen.initial_sets(gc['nodes'], allow_R=False, max_I=1))
+    return {'gc': gc, 'dur': dur, 'delays': delays, 'I0': I0, 'tmin': draw(st.sampled_from([0, 0.5, 0.3, 0.2])), 'late': False,
+            'api': draw(st.sampled_from(['two', 'joint'])), 'single': draw(st.booleans()), 'pick': draw(st.integers(0, 30)),
+            'shared_lists': draw(st.booleans())}
+
+
+def prop_ref_decimal(case):
+    nodes, adj = oracles.adjacency(case['gc'])
+    pairs = [(u, v) for u in nodes for v in adj[u]]
+    events, _ = reference(nodes, adj, dict(zip(nodes, case['dur'])), dict(zip(pairs, case['delays'])),
+                          [oracles.tolabel(u) for u in case['I0']], case['tmin'], case['tmin'] + 9.0)
+    later = [e[0] for e in events if e[0] > case['tmin']]
+    if not later:
+        return Result([], classes=['decimal:no-event'])
+    Te = later[case['pick'] % len(later)]
+    tmax = round(Te, 1)
+    if tmax < Te:
+        tmax = round(Te + 0.1, 1)
+    c = dict(case)
+    c['tmax'] = tmax
+    res = prop_ref(c)
+    res.classes = ['decimal-grid'] + (['event-one-ulp-below-tmax'] if 0 < tmax - Te < 1e-9 else []) + (['event-exactly-at-tmax'] if tmax == Te else []) + res.classes
+    res.nontrivial = 'discarded-coincidence' not in res.classes and len(later) >= 2
+    return res
+
+
 def prop_ref(case):
     import EoN
     nodes, adj = oracles.adjacency(case['gc'])
@@ -208,6 +252,8 @@ def mc_configs(thorough):
 def replay(ctx, sub, case):
     if sub.startswith('mc'):
         return mc.replay_mc(ctx, case, 64000)
+    if sub == 'decimal':
+        return prop_ref_decimal(case).failures
     return prop_ref(case).failures
 
 
@@ -229,5 +275,8 @@ def run(ctx):
         ctx.extra['discarded_coincidences'] = disc
         if n and disc > 0.25 * n:
             ctx.harness_error('reference', 'too many discarded cases: %d of %d' % (disc, n))
+    if not only or 'decimal' in only:
+        run_hypothesis(ctx, 'decimal', sis_decimal_case(), prop_ref_decimal, 800 if quick else 20000, rounds=2)
+        ctx.extra['decimal_grid'] = {k.split(':', 1)[1]: v for k, v in ctx.classes.items() if k.startswith('decimal:')}
     if not only or 'mc' in only:
         mc.run_mc(ctx, 'mc', mc_configs(not quick), 32000 if quick else 500000)
